@@ -45,6 +45,13 @@ class Evaluator:
         elif goal is False and not st.pc:
             ob.status = "failed"
         else:
+            import os as _os
+            if _os.environ.get("NUCSVC_DUMP") and _os.environ["NUCSVC_DUMP"] in oid:
+                _s = z3.Solver()
+                for _f in self.axioms + st.pc:
+                    _s.add(_f)
+                _s.add(z3.Not(zbool(goal)))
+                open("/tmp/dump_%s.smt2" % oid.replace("/", "_"), "w").write(_s.to_smt2())
             status, _m, dt = self.prover.check_valid(self.axioms + st.pc, goal)
             ob.status = status
             ob.time = dt
@@ -406,6 +413,9 @@ class Evaluator:
         return AExpr(shape, fn, "i64")
 
     def compare(self, st, op, a, b):
+        if isinstance(op, (ast.Is, ast.IsNot)):
+            r = (a is None) if b is None else ((b is None) if a is None else a is b)
+            return r if isinstance(op, ast.Is) else (not r)
         if isinstance(a, (Arr, AExpr)) or isinstance(b, (Arr, AExpr)):
             A = self.to_aexpr(st, a) if isinstance(a, (Arr, AExpr)) else None
             B = self.to_aexpr(st, b) if isinstance(b, (Arr, AExpr)) else None
